@@ -10,3 +10,6 @@ open CaddyModel.C18
 #print axioms unknown_never_substituted_when_kept
 #print axioms cost_linear
 #print axioms cost_linear_all_modes_full_fails
+#print axioms vars_regexp_sees_value_verbatim
+#print axioms vars_matcher_compares_verbatim
+#print axioms vars_regexp_old_code_rescans
